@@ -3,6 +3,7 @@ package main
 
 import (
 	_ "verif/h/checks/c12"
+	_ "verif/h/checks/c12sim"
 	"verif/h/internal/core"
 )
 
